@@ -15,7 +15,7 @@ CONFIG = {
                    "effect log, and the exact set of histories that received a generation."),
     "level_note": "same ignore-model restrictions as C02; reference order inside <references> is not judged here (C13).",
     "technique": "deterministic simulation: seeded nested-layout exploration with partition/reference/commit-order oracles over the effect log",
-    "quick": {"runs": 800, "budget_s": 90},
+    "quick": {"runs": 1200, "budget_s": 120},
     "thorough": {"runs": 8000, "budget_s": 540},
     "rule": ("one run = random nested world + 3..12 operations; one evaluation = one executed command. Distinct = (mode, "
              "#histories in scope, max nesting depth, #references written, prefix-sibling present, -n, exit); non-trivial = "
